@@ -174,3 +174,6 @@ Definition enc_map (off m : Z) (phi : Z -> Z) : Z -> bool :=
 (* the function read off an assignment: the first j in 1..m with f(i)=j true (0 if none) *)
 Definition dec_map (a : Z -> bool) (off m : Z) : Z -> Z :=
   fun i => match find (fun j => a (mvar off m i j)) (rng m) with Some j => j | None => 0 end.
+(* the assignment that writes phi i - 1 in binary on the b variables of element i *)
+Definition enc_bits (b : Z) (phi : Z -> Z) : Z -> bool :=
+  fun v => Z.testbit (phi ((v - 1) / b + 1) - 1) (((v - 1) / b + 1) * b - v).
